@@ -34,6 +34,7 @@ struct Doc {                         // an original, as lines with per-line attr
     std::vector<std::string> lines;
     std::vector<char> is_kwline;     // keyword-name line
     std::vector<char> tokenizable;   // token level rewrites allowed on this line
+    std::vector<char> rawslash;         // line of a raw-string keyword (UDQ, ACTIONX, ...) that ends in its terminating '/': R2/R7 apply (no token rules)
     std::vector<char> no_insert_before; // R1/R3 not allowed before this line (TITLE text)
 };
 
@@ -46,6 +47,7 @@ static std::vector<Site> sites(const Doc& d) {
         if (ins_ok) { s.push_back({R1_comment_line, i, 0}); s.push_back({R3_blank_line, i, 0}); }
         if (i == (int)d.lines.size()) break;
         if (d.is_kwline[i]) { s.push_back({R5_case, i, 0}); s.push_back({R5_case, i, 1}); s.push_back({R2_trailing_comment, i, 0}); s.push_back({R4_whitespace, i, 0}); }
+        if (i < (int)d.rawslash.size() && d.rawslash[i]) { s.push_back({R2_trailing_comment, i, 0}); s.push_back({R7_after_slash, i, 0}); }
         if (d.tokenizable[i]) {
             s.push_back({R2_trailing_comment, i, 0}); s.push_back({R4_whitespace, i, 0});
             auto t = deckgen::tokens(d.lines[i]);
@@ -109,9 +111,10 @@ static void judge(const std::string& what, const std::string& origin, const Pars
 static Doc doc_of(const deckgen::Instance& in) {
     Doc d;
     std::istringstream is(in.prelude); std::string l;
-    while (std::getline(is, l)) { d.lines.push_back(l); d.is_kwline.push_back(0); d.tokenizable.push_back(0); d.no_insert_before.push_back(0); }
+    while (std::getline(is, l)) { d.lines.push_back(l); d.is_kwline.push_back(0); d.tokenizable.push_back(0); d.no_insert_before.push_back(0); d.rawslash.push_back(0); }
     for (size_t i = 0; i < in.lines.size(); ++i) {
         d.lines.push_back(in.lines[i]); d.is_kwline.push_back(i == 0); d.tokenizable.push_back(i > 0 && !in.freetext);
+        { const std::string& ln = in.lines[i]; size_t e = ln.find_last_not_of(" \t"); d.rawslash.push_back(i > 0 && in.freetext && in.cls.find("+RAW") != std::string::npos && e != std::string::npos && ln[e] == '/'); }
         d.no_insert_before.push_back((in.name == "TITLE" && i == 1) || (in.freetext && i > 0 && in.cls.find("CODE") != std::string::npos));
     }
     return d;
@@ -131,11 +134,14 @@ static void explore_doc(const Doc& d, const std::string& origin, const std::stri
         std::string t = render(d, all);
         judge(std::string(rule_name[r]) + "@all", origin, a, parse_text(t), std::string("C01:") + rule_name[r] + ":all-sites", casebase + " A " + std::to_string(r), t);
     }
-    { std::string t = render(d, ss); judge("all-rules@all", origin, a, parse_text(t), "C01:all-rules-all-sites", casebase + " X", t); }
+    // documents of raw-string keywords report combined rewrites under their own keys (their lines end at the LAST slash of the line)
+    bool rawdoc = false; for (char c : d.rawslash) if (c) rawdoc = true;
+    const std::string rk = rawdoc ? ":raw-string-keyword" : "";
+    { std::string t = render(d, ss); judge("all-rules@all", origin, a, parse_text(t), "C01:all-rules-all-sites" + rk, casebase + " X", t); }
     if (pairs) for (size_t k = 0; k < ss.size(); ++k) for (size_t m = k + 1; m < ss.size(); ++m) {
         if (ss[k].r == R5_case && ss[m].r == R5_case && ss[k].line == ss[m].line) continue;
         std::string t = render(d, {ss[k], ss[m]});
-        judge(site_str(ss[k]) + "+" + site_str(ss[m]), origin, a, parse_text(t), std::string("C01:pair:") + rule_name[ss[k].r] + "+" + rule_name[ss[m].r], casebase + " P " + std::to_string(k) + " " + std::to_string(m), t);
+        judge(site_str(ss[k]) + "+" + site_str(ss[m]), origin, a, parse_text(t), std::string("C01:pair:") + rule_name[ss[k].r] + "+" + rule_name[ss[m].r] + rk, casebase + " P " + std::to_string(k) + " " + std::to_string(m), t);
     }
 }
 
